@@ -2228,6 +2228,11 @@ impl<'arena> PrettyFormatter<'arena> {
     fn literal(&self, literal: &Literal) -> RcDoc<'arena> {
         RcDoc::text(match literal {
             | Literal::Integer(value) => format!("{value:?}"),
+            // an overflowing literal denotes an infinity, which `{:?}` would spell as the
+            // identifier `inf`: print the shortest literal that overflows again
+            | Literal::Float(value) if value.value().is_infinite() => {
+                (if value.value() > 0.0 { "1e999" } else { "-1e999" }).to_string()
+            }
             | Literal::Float(value) => format!("{value:?}"),
             | Literal::String(value) => super::escape::quote_string(value.as_str()),
             | Literal::Char(value) => format!("{value:?}"),
